@@ -47,6 +47,62 @@ theorem ids_replace_perm (t : ITree) (q : Path) (s : ITree) (hq : (t.subtree q).
         simp only [replace, ids_node, subtree_R] at hq ⊢
         exact List.Perm.cons _ (List.Perm.append_left _ (ih r hq))
 
+/-- replacing a subtree by a tree made of some of its nodes keeps the nodes distinct and adds none -/
+theorem ids_replace_nodup (t : ITree) (q : Path) (s : ITree) (hnd : t.ids.Nodup) (hs : s.ids.Nodup)
+    (hin : ∀ i ∈ s.ids, i ∈ (t.subtree q).ids) :
+    (t.replace q s).ids.Nodup ∧ ∀ i ∈ (t.replace q s).ids, i ∈ t.ids := by
+  induction q generalizing t with
+  | nil => simp only [subtree_root] at hin; simpa using ⟨hs, hin⟩
+  | cons d q ih =>
+    cases t with
+    | nil => simp [replace]
+    | node id c l k v r =>
+      simp only [ids_node, List.nodup_cons, List.mem_append, not_or, List.nodup_append] at hnd
+      obtain ⟨⟨h1, h2⟩, h3, h4, h5⟩ := hnd
+      cases d with
+      | L =>
+        obtain ⟨i1, i2⟩ := ih l h3 (by simpa using hin)
+        simp only [replace, ids_node, List.nodup_cons, List.mem_append, not_or, List.nodup_append, List.mem_cons]
+        refine ⟨⟨⟨fun hm => h1 (i2 _ hm), h2⟩, i1, h4, fun a ha b hb => h5 a (i2 a ha) b hb⟩, ?_⟩
+        intro i hi
+        rcases hi with e | e | e
+        · exact Or.inl e
+        · exact Or.inr (Or.inl (i2 i e))
+        · exact Or.inr (Or.inr e)
+      | R =>
+        obtain ⟨i1, i2⟩ := ih r h4 (by simpa using hin)
+        simp only [replace, ids_node, List.nodup_cons, List.mem_append, not_or, List.nodup_append, List.mem_cons]
+        refine ⟨⟨⟨h1, fun hm => h2 (i2 _ hm)⟩, h3, i1, fun a ha b hb => h5 a ha b (i2 b hb)⟩, ?_⟩
+        intro i hi
+        rcases hi with e | e | e
+        · exact Or.inl e
+        · exact Or.inr (Or.inl e)
+        · exact Or.inr (Or.inr (i2 i e))
+
+theorem height_subtree_le (t : ITree) (q : Path) : (t.subtree q).height ≤ t.height := by
+  induction q generalizing t with
+  | nil => simp
+  | cons d q ih =>
+    cases t with
+    | nil => simp
+    | node id c l k v r =>
+      cases d with
+      | L => have := ih l; simp only [subtree_L, height]; omega
+      | R => have := ih r; simp only [subtree_R, height]; omega
+
+theorem length_lt_height (t : ITree) (q : Path) (h : t.subtree q ≠ .nil) : q.length < t.height := by
+  induction q generalizing t with
+  | nil => cases t with
+           | nil => simp at h
+           | node _ _ _ _ _ _ => simp [height]
+  | cons d q ih =>
+    cases t with
+    | nil => simp at h
+    | node id c l k v r =>
+      cases d with
+      | L => have := ih l (by simpa using h); simp only [height, List.length_cons]; omega
+      | R => have := ih r (by simpa using h); simp only [height, List.length_cons]; omega
+
 theorem height_le_ids (t : ITree) : t.height ≤ t.ids.length := by
   induction t with
   | nil => simp [height]
@@ -55,14 +111,16 @@ end ITree
 
 /-- the heap of `st` holds exactly the id-annotated tree `t`: `root` points to it, every node carries its
 key, value, colour, both child pointers and the parent pointer, no node occurs twice, the sentinel is
-black, `size` counts the nodes and every id has been handed out by the allocator -/
+black with zero key, value, `left`, `right` (its `parent` is scratch space), `size` counts the nodes and every id has been handed out by the allocator -/
 structure Represents (st : PT) (t : ITree) : Prop where
   root  : st.root = t.rid
   rep   : Rep st.heap t 0
   nodup : t.ids.Nodup
   black : (st.heap.get 0).color = .black
+  sent  : (st.heap.get 0).key = 0 ∧ (st.heap.get 0).value = 0 ∧ (st.heap.get 0).left = 0 ∧ (st.heap.get 0).right = 0
   size  : st.size = t.ids.length
   fresh : ∀ i ∈ t.ids, i < st.fresh
+  fresh_pos : 0 < st.fresh
 
 /-- well-formedness of a pointer-level table -/
 def WF (st : PT) : Prop := ∃ t, Represents st t
@@ -73,7 +131,7 @@ theorem Represents.toTree {st : PT} {t : ITree} (h : Represents st t) : toTree s
   exact toTreeF_rep h.rep _ (by have := ITree.height_le_ids t; rw [h.size]; omega)
 
 theorem new_represents : Represents PTree.new .nil :=
-  ⟨rfl, trivial, List.nodup_nil, by simp [PTree.new, Heap.get_set], rfl, fun i hi => by simp at hi⟩
+  ⟨rfl, trivial, List.nodup_nil, by simp [PTree.new, Heap.get_set], by simp [PTree.new, Heap.get_set], rfl, fun i hi => by simp at hi, by simp [PTree.new]⟩
 
 /-- **`rotate_left` preserves well-formedness and commutes with the rotation of the inductive tree** -/
 theorem rotateLeft_represents {st : PT} {t : ITree} (h : Represents st t) (q : Path) {x cx a kx vx y cy b ky vy c}
@@ -88,8 +146,8 @@ theorem rotateLeft_represents {st : PT} {t : ITree} (h : Represents st t) (q : P
     refine (List.perm_middle (l₁ := x :: a.ids) (a := y) (l₂ := b.ids ++ c.ids)).trans ?_
     exact List.Perm.refl _
   have hrep : Represents (rotateLeft st x) (t.replace q (.node y cy (.node x cx a kx vx b) ky vy c)) :=
-    ⟨r2, r1, (List.Perm.nodup_iff hperm).2 h.nodup, by rw [r3]; exact h.black, by rw [r4, h.size, hperm.length_eq],
-      fun i hi => by rw [r5]; exact h.fresh i (hperm.subset hi)⟩
+    ⟨r2, r1, (List.Perm.nodup_iff hperm).2 h.nodup, by rw [r3]; exact h.black, by rw [r3]; exact h.sent, by rw [r4, h.size, hperm.length_eq],
+      fun i hi => by rw [r5]; exact h.fresh i (hperm.subset hi), by rw [r5]; exact h.fresh_pos⟩
   refine ⟨hrep, ?_⟩
   rw [hrep.toTree, h.toTree, ITree.erase_replace, ← ITree.erase_subtree, hs]
   rfl
@@ -106,8 +164,8 @@ theorem rotateRight_represents {st : PT} {t : ITree} (h : Represents st t) (q : 
     simp only [ITree.ids_node, List.cons_append, List.append_assoc]
     exact (List.perm_middle (l₁ := y :: a.ids) (a := x) (l₂ := b.ids ++ c.ids)).symm
   have hrep : Represents (rotateRight st x) (t.replace q (.node y cy a ky vy (.node x cx b kx vx c))) :=
-    ⟨r2, r1, (List.Perm.nodup_iff hperm).2 h.nodup, by rw [r3]; exact h.black, by rw [r4, h.size, hperm.length_eq],
-      fun i hi => by rw [r5]; exact h.fresh i (hperm.subset hi)⟩
+    ⟨r2, r1, (List.Perm.nodup_iff hperm).2 h.nodup, by rw [r3]; exact h.black, by rw [r3]; exact h.sent, by rw [r4, h.size, hperm.length_eq],
+      fun i hi => by rw [r5]; exact h.fresh i (hperm.subset hi), by rw [r5]; exact h.fresh_pos⟩
   refine ⟨hrep, ?_⟩
   rw [hrep.toTree, h.toTree, ITree.erase_replace, ← ITree.erase_subtree, hs]
   rfl
